@@ -1,13 +1,17 @@
-(* An unbounded-width ECMA-48 line terminal (spec side of C06): printable characters of width 1 overwrite at the column,
-   CR, LF (new empty row, column kept), CUF, CUB (saturating), DCH, ICH, EL 2. A cell holds one character (its UTF-8 bytes). *)
-From EC Require Import Base Spec.Utf8Spec.
+(* An unbounded-width ECMA-48 line terminal (spec side of C06), fed byte by byte.
+   Ground state: printable characters of width 1 overwrite at the column (a cell holds one character = its UTF-8 bytes),
+   CR, LF (new empty row, column kept), other C0 controls ignored, ESC starts an escape sequence.
+   CSI (ESC [) with an optional decimal parameter Pn (default 1, 0 counts as 1): CUF (C), CUB (D, saturating), DCH (P), ICH (@);
+   EL (K) with Ps = 0 (default, cursor to end), 1 (start to cursor), 2 (whole line). Sequences with several parameters,
+   intermediates or other final bytes are consumed and ignored. *)
+From EC Require Import Base Spec.Utf8Spec Spec.ArgSpec.
 
 Definition cell := list N.
 Definition blank : cell := [32].
 Record vterm := { rows : list (list cell); row : list cell; col : nat }.   (* rows: finished rows, newest first *)
 Definition vterm0 := {| rows := []; row := []; col := 0 |}.
 
-Inductive titem := TChar (c : cell) | TCR | TLF | TCUF | TCUB | TDCH | TICH | TEL2 | TOther (b : N).
+Inductive titem := TChar (c : cell) | TCR | TLF | TCUF | TCUB | TDCH | TICH | TEL0 | TEL1 | TEL2.
 
 Fixpoint overwrite (r : list cell) (c : nat) (x : cell) : list cell :=
   match c, r with
@@ -38,48 +42,59 @@ Definition feed1 (t : vterm) (i : titem) : vterm :=
   | TCUB => {| rows := rows t; row := row t; col := pred (col t) |}
   | TDCH => {| rows := rows t; row := delete_at (row t) (col t); col := col t |}
   | TICH => {| rows := rows t; row := insert_at (row t) (col t); col := col t |}
+  | TEL0 => {| rows := rows t; row := firstn (col t) (row t); col := col t |}
+  | TEL1 => {| rows := rows t; row := repeat blank (Nat.min (S (col t)) (length (row t))) ++ skipn (S (col t)) (row t); col := col t |}
   | TEL2 => {| rows := rows t; row := []; col := col t |}
-  | TOther _ => t
   end.
-Definition feed (t : vterm) (is : list titem) : vterm := fold_left feed1 is t.
 
-(* lexer: bytes -> items. ESC [ <final> with no parameters for the five sequences the library emits; ESC [ 2 K. *)
-Definition char_len (b : N) : nat :=
-  if b <? 0x80 then 1 else if b <? 0xE0 then 2 else if b <? 0xF0 then 3 else 4.
-Fixpoint lex (fuel : nat) (bs : list N) : list titem :=
-  match fuel with
-  | O => []
-  | S f =>
-    match bs with
-    | [] => []
-    | 13 :: r => TCR :: lex f r
-    | 10 :: r => TLF :: lex f r
-    | 27 :: 91 :: 67 :: r => TCUF :: lex f r
-    | 27 :: 91 :: 68 :: r => TCUB :: lex f r
-    | 27 :: 91 :: 80 :: r => TDCH :: lex f r
-    | 27 :: 91 :: 64 :: r => TICH :: lex f r
-    | 27 :: 91 :: 50 :: 75 :: r => TEL2 :: lex f r
-    | b :: r => if b <? 32 then TOther b :: lex f r
-                else let n := char_len b in TChar (firstn n bs) :: lex f (skipn n bs)
+(* lexer state *)
+Inductive lstate := LG | LEsc | LCsi (p : option nat) (bad : bool) | LU (need : nat) (acc : list N).
+Definition tstate := (vterm * lstate)%type.
+Definition tinit : tstate := (vterm0, LG).
+
+Definition pn (p : option nat) : nat := match p with Some (S n) => S n | _ => 1 end.
+Definition csi_final (t : vterm) (p : option nat) (b : N) : vterm :=
+  if b =? 67 then Nat.iter (pn p) (fun t => feed1 t TCUF) t
+  else if b =? 68 then Nat.iter (pn p) (fun t => feed1 t TCUB) t
+  else if b =? 80 then Nat.iter (pn p) (fun t => feed1 t TDCH) t
+  else if b =? 64 then Nat.iter (pn p) (fun t => feed1 t TICH) t
+  else if b =? 75 then
+    match p with
+    | None | Some O => feed1 t TEL0
+    | Some (S O) => feed1 t TEL1
+    | Some (S (S O)) => feed1 t TEL2
+    | _ => t
+    end
+  else t.
+
+Definition tstep (T : tstate) (b : N) : tstate :=
+  let '(t, l) := T in
+  match l with
+  | LG =>
+    if b =? 13 then (feed1 t TCR, LG) else if b =? 10 then (feed1 t TLF, LG) else if b =? 27 then (t, LEsc)
+    else if b <? 32 then (t, LG)
+    else match lead_len b with
+         | S O => (feed1 t (TChar [b]), LG)
+         | n => (t, LU (Nat.pred n) [b])
+         end
+  | LEsc => if b =? 91 then (t, LCsi None false) else (t, LG)
+  | LCsi p bad =>
+    if (48 <=? b) && (b <=? 57) then (t, LCsi (Some (10 * (match p with Some n => n | None => O end) + N.to_nat (b - 48))%nat) bad)
+    else if (64 <=? b) && (b <=? 126) then (if bad then t else csi_final t p b, LG)
+    else if (32 <=? b) && (b <=? 63) then (t, LCsi p true)
+    else (t, LG)
+  | LU need acc =>
+    match need with
+    | S (S k) => (t, LU (S k) (acc ++ [b]))
+    | _ => (feed1 t (TChar (acc ++ [b])), LG)
     end
   end.
-Definition term_lex (bs : list N) : list titem := lex (S (length bs)) bs.
+Definition tfeed (T : tstate) (bs : list N) : tstate := fold_left tstep bs T.
 
 (* the row ignoring trailing blanks *)
 Fixpoint strip_blanks_rev (r : list cell) : list cell :=
   match r with c :: r' => if list_eqb c blank then strip_blanks_rev r' else r | [] => [] end.
 Definition visible (r : list cell) : list cell := rev (strip_blanks_rev (rev r)).
-
-(* what must be on screen: prompt ++ line as cells, cursor column *)
-Fixpoint cells_of (fuel : nat) (bs : list N) : list cell :=
-  match fuel with
-  | O => []
-  | S f => match bs with
-           | [] => []
-           | b :: _ => let n := char_len b in firstn n bs :: cells_of f (skipn n bs)
-           end
-  end.
-Definition cells (bs : list N) : list cell := cells_of (length bs) bs.
 
 Fixpoint cells_eqb (a b : list cell) : bool :=
   match a, b with
@@ -87,7 +102,8 @@ Fixpoint cells_eqb (a b : list cell) : bool :=
   | x :: a', y :: b' => list_eqb x y && cells_eqb a' b'
   | _, _ => false
   end.
-(* C06 oracle: current row shows prompt ++ text (ignoring trailing blanks), cursor at |prompt| + cursor *)
-Definition view_ok (t : vterm) (prompt text : list N) (cursor : nat) : bool :=
-  cells_eqb (visible (row t)) (visible (cells (prompt ++ text)))
-  && Nat.eqb (col t) (length (cells prompt) + cursor).
+(* C06 oracle: no sequence pending, the current row shows prompt ++ text (ignoring trailing blanks), cursor at |prompt| + cursor *)
+Definition view_ok (T : tstate) (prompt text : list N) (cursor : nat) : bool :=
+  (match snd T with LG => true | _ => false end)
+  && cells_eqb (visible (row (fst T))) (visible (chars_of (prompt ++ text)))
+  && Nat.eqb (col (fst T)) (length (chars_of prompt) + cursor).
